@@ -326,6 +326,16 @@ def run_case(case):
                         return u
                 for nm in list(supplied):
                     supplied[nm] = TaskAware(nm, supplied[nm].calendar)
+            if case.get('unhashable_resources'):
+                # a user-defined resource class that defines __eq__ and therefore is not hashable (a plain dataclass
+                # does): legal for the schedulers, which compare resources and key them by name
+                class Crew(Resource):
+                    __hash__ = None
+
+                    def __eq__(self, other):
+                        return self is other
+                for nm in list(supplied):
+                    supplied[nm] = Crew(nm, supplied[nm].calendar)
             kw = {'resources': list(supplied.values()), 'balance_resources': case['balance']}
             if case.get('default_estimate') is not None:
                 kw['default_estimate'] = num(case['default_estimate'], False)
